@@ -406,7 +406,7 @@ func (mapSetSelf *MapSetDef[T, R]) Union(input SetDef[T, R]) SetDef[T, R] {
 // Intersection Get the Intersection with this Set and an another Set
 func (mapSetSelf *MapSetDef[T, R]) Intersection(input SetDef[T, R]) SetDef[T, R] {
 	if input == nil || input.Size() == 0 {
-		return new(MapSetDef[T, R])
+		return &MapSetDef[T, R]{}
 	}
 
 	result := MapSetDef[T, R](IntersectionMapByKey(*mapSetSelf, input.AsMap()))
